@@ -350,6 +350,7 @@ def _r16_1d(res, P, cfgname):
             cfg = mir.cfg_of(f['mir'])
             ok = False
             strict_boundary = False
+            guard_blocks = set()
             heads = {h for (_t, h) in cfg.back_edges()}
             other_helpers = ("panic_operate_with_inf", "panic_unlimited_precision", "assert_finite", "assert_limited_precision")
             for i, bb in enumerate(f['mir']['bbs']):
@@ -379,6 +380,8 @@ def _r16_1d(res, P, cfgname):
                 depends_on_x = 2 in locs
                 tests = [mir.callee_path(f['mir']['bbs'][c]['t']) or '' for c in calls]
                 is_test = any(x.endswith(("::sign", "::is_zero", "::le", "::lt", "::cmp", "::partial_cmp", "::is_positive", "::is_negative")) for x in tests)
+                if depends_on_x and is_test and heads:
+                    guard_blocks.add(i)
                 if depends_on_x and is_test and heads and all(cfg.dominates(i, h) for h in heads):
                     ok = True
                     # ln_1p(-1) = ln(0) is outside the domain too: a comparison with -1 must be
@@ -387,6 +390,10 @@ def _r16_1d(res, P, cfgname):
                     uses_neg_one = any((mir.callee_path(f['mir']['bbs'][c]['t']) or '').endswith("::neg_one") for c in calls)
                     if uses_neg_one and cmp_neg_one and not any(x.endswith(("::le", "::ge")) for x in cmp_neg_one):
                         strict_boundary = True
+            # the guard may be split over the two entry modes (`if one_plus { if x <= -1 {panic} } else if .. {panic}`):
+            # then no single test dominates the loops, but every path to a loop head passes one of them
+            if not ok and guard_blocks and heads and cfg.must_pass(guard_blocks, 0, set(heads)):
+                ok = True
             key = "ln_internal: domain guard (x > 0 resp. x > -1) before the series loop"
             if ok and strict_boundary:
                 res.fail("R16.1d", cfgname, key + "|boundary", "the ln_1p domain test compares with -1 strictly: ln_1p(-1) = ln(0) passes the guard and enters the series loop (hang / out of memory instead of the documented panic)", span_loc(f['sp']))
